@@ -254,7 +254,9 @@ def impl_window(ctx, case):
 def gen_cm(rng, lo=None):
     """cm magnitude in (0, 2]; lo = smallest value that still contains the focus"""
     r = rng.random()
-    if r < 0.55:
+    if r < 0.04:
+        v = 0.0          # a zero-size cap contains only its centre (and -0.0 is the same cap)
+    elif r < 0.55:
         v = rng.uniform(0.0, 2.0)
     elif r < 0.7:
         v = 10 ** rng.uniform(-7, -1)
